@@ -54,6 +54,8 @@ UFUNCS = {
     'minimum': UFunc('minimum', 2, 1), 'maximum': UFunc('maximum', 2, 1),
     'less': UFunc('less', 2, 1, 'bool'),
     'modf': UFunc('modf', 1, 2), 'divmod': UFunc('divmod', 2, 2),
+    # two outputs of different dtypes (mantissa: input dtype, exponent: int32)
+    'frexp': UFunc('frexp', 1, 2, 'frexp'),
 }
 
 
@@ -188,7 +190,10 @@ class UH(NAHooks):
             for k in range(u.nout):
                 res[k][idx] = atom(u, k, 'call', payload)
         dt = self.res_dt(u, ins, kw)
-        return self._emit(I, res, out, [dt] * u.nout)
+        dts = [dt] * u.nout
+        if u.kind == 'frexp':
+            dts = [dt, DT('int32')]
+        return self._emit(I, res, out, dts)
 
     def _axis_tuple(self, axis, ndim):
         if axis is None:
